@@ -138,6 +138,16 @@ def mut_bm(L):
     raise SystemExit("no bmend")
 
 
+def mut_txn(L):
+    for e in L:
+        if e.get("ev") == "freeing":
+            for t in e["txns"]:
+                if t["k"] == "bg" and t["n"] > 100:
+                    t["n"] += 1
+                    return "one freeing transaction reported one block larger"
+    raise SystemExit("no freeing transaction")
+
+
 av = E.avoid_flags(E.load_known())
 seq = record(["seq", "-seed", "3", "-segs", "1", "-steps", "150", "-profile", "mix,data,dirs", "-avoid", av, "-disk", "8000", "-dumpeach", "50", "-snapeach", "10"], "seq")
 experiment("reply data", "NfsTrace", seq, mut_read)
@@ -156,6 +166,8 @@ cr = record(["crash", "-seed", "5", "-segs", "1", "-steps", "12", "-profile", "c
 experiment("write-ahead discipline", "WalTrace", cr, mut_wal)
 bm = record(["bmap", "-seed", "1", "-steps", "10"], "bmap")
 experiment("block map", "BlockMapTrace", bm, mut_bm)
+tf = record(["txnfit", "-seed", "1", "-steps", "50"], "txnfit")
+experiment("freeing transactions", "TxnFitTrace", tf, mut_txn)
 shutil.rmtree(scratch, ignore_errors=True)
 print("binding self-check: %d experiment(s) failed" % fails)
 sys.exit(1 if fails else 0)
